@@ -97,6 +97,10 @@ Progs(maxLen) ==
   {Base @@ [src |-> s, tgt |-> t, map |-> m, unknown |-> u, rootErr |-> e, pos |-> "top", enumOn |-> TRUE] : s \in E, t \in E, m \in Maps, u \in Unknowns, e \in BOOLEAN}
   \cup {Base @@ [src |-> s, tgt |-> t, map |-> <<>>, unknown |-> u, rootErr |-> e, pos |-> ps, enumOn |-> TRUE] : s \in E, t \in E, u \in Unknowns, e \in BOOLEAN, ps \in {"field", "elem"}}
   \cup {Base @@ [src |-> s, tgt |-> t, map |-> <<>>, unknown |-> u, rootErr |-> FALSE, pos |-> ps, enumOn |-> FALSE] : s \in E, t \in E, u \in {"", "@panic"}, ps \in {"top", "field"}}
+  \* enum:exclude: "self" names both enum types (the pair is then an ordinary named-basic pair: a cast, enumOn = FALSE in the model);
+  \* "other" names a type of the same name in another package and another type of the same package: no effect on the pair
+  \cup {Base @@ [src |-> s, tgt |-> t, map |-> <<>>, unknown |-> u, rootErr |-> TRUE, pos |-> ps, enumOn |-> (x = "other"), excl |-> x] :
+           s \in E, t \in E, u \in {"@error", "@ignore"}, ps \in {"top", "field"}, x \in {"self", "other"}}
   \* one transformer, alone and together with an enum:map line for the same / another member
   \cup {[kind |-> "int", tr |-> x, same |-> FALSE, src |-> s, tgt |-> t, map |-> m, unknown |-> u, rootErr |-> TRUE, pos |-> "top", enumOn |-> TRUE] :
            s \in E, t \in E, x \in Trs, m \in {<<>>, <<"A", "C">>, <<"A", "@ignore">>, <<"B", "A">>}, u \in {"@error", "@ignore"}}
